@@ -374,9 +374,12 @@ func (v *visitor) FunctionNode(node *ast.FunctionNode) reflect.Type {
 				fn.IsVariadic() &&
 				fn.NumIn() == inputParamsCount &&
 				fn.NumOut() == 1 &&
-				fn.Out(0).Kind() == reflect.Interface {
+				fn.Out(0) == interfaceType {
 				rest := fn.In(fn.NumIn() - 1) // function has only one param for functions and two for methods
-				if rest.Kind() == reflect.Slice && rest.Elem().Kind() == reflect.Interface {
+				// The fast call asserts func(...interface{}) interface{}
+				// itself: neither a type defined from it nor another
+				// interface type in its signature will do.
+				if rest == reflect.TypeOf([]interface{}{}) && (f.Method || fn.Name() == "") {
 					node.Fast = true
 				}
 			}
